@@ -130,9 +130,14 @@ impl View {
                             Some(_) => ("\u{fffc}".to_string(), None),
                             None => (String::new(), None),
                         };
+                        // a single element may hold a string of several characters (a put of "xyz" on
+                        // one text element): patches describe text, not element grouping, so the view
+                        // spreads the string over the element's units exactly as a splice of it would
+                        let pieces = if obj.is_none() { units_of(enc, &s, &BTreeMap::new()) } else { vec![] };
+                        let spread = pieces.len() == end - *start && pieces.len() > 1;
                         for u in *start..end {
                             units.push(VUnit {
-                                s: if u == *start { s.clone() } else { String::new() },
+                                s: if spread { pieces[u - *start].s.clone() } else if u == *start { s.clone() } else { String::new() },
                                 marks: t.unit_marks.get(u).cloned().unwrap_or_default(),
                                 obj: if u == *start { obj.clone() } else { None },
                             });
